@@ -546,6 +546,19 @@ def _always_returns(t):
     return False
 
 
+def _neg(c):
+    """exact negation of a boolean term in positive form, or None"""
+    if _is(c, "un") and c[1] == "not" and len(c) == 4:
+        return c[3]
+    if _is(c, "call") and isinstance(c[1], str) and c[1].endswith("cmp::PartialEq>::eq"):
+        return ("call", c[1][:-2] + "ne") + c[2:]
+    if _is(c, "call") and isinstance(c[1], str) and c[1].endswith("cmp::PartialEq>::ne"):
+        return ("call", c[1][:-2] + "eq") + c[2:]
+    if _is(c, "op") and len(c) == 5 and c[1] in ("eq", "ne"):
+        return ("op", "ne" if c[1] == "eq" else "eq") + c[2:]
+    return None
+
+
 def _flip_not(t):
     """(if (not c) A B) ==> (if c B A)   (two-armed conditionals only)"""
     while _is(t, "if") and len(t) == 4 and t[3] != ("unit",) and _is(t[1], "un") and t[1][1] == "not" and len(t[1]) == 4:
@@ -553,6 +566,21 @@ def _flip_not(t):
     if _is(t, "if") and len(t) == 4 and t[3] != ("unit",) and _is(t[1], "call") and isinstance(t[1][1], str) and t[1][1].endswith("cmp::PartialEq>::ne") and len(t[1]) == 4:
         # derived / std PartialEq: ne is the negation of eq
         t = ("if", ("call", t[1][1][:-2] + "eq") + t[1][2:], t[3], t[2])
+    # if !x || y {A} else {B}  ==  if x && !y {B} else {A}     (De Morgan, when a disjunct is a negation)
+    if _is(t, "if") and len(t) == 4 and t[3] != ("unit",) and _is(t[1], "op") and len(t[1]) == 5 and t[1][1] == "or":
+        dis = []
+
+        def flat(c):
+            if _is(c, "op") and len(c) == 5 and c[1] == "or":
+                flat(c[3]); flat(c[4])
+            else:
+                dis.append(c)
+        flat(t[1])
+        if any(_is(d, "un") and d[1] == "not" for d in dis) and all(_neg(d) is not None for d in dis):
+            conj = _neg(dis[0])
+            for d in dis[1:]:
+                conj = ("op", "and", "bool", conj, _neg(d))
+            t = ("if", conj, t[3], t[2])
     # a != b is exactly !(a == b) (also for NaN)
     if _is(t, "if") and len(t) == 4 and t[3] != ("unit",) and _is(t[1], "op") and len(t[1]) == 5 and t[1][1] == "ne":
         t = ("if", ("op", "eq") + t[1][2:], t[3], t[2])
@@ -636,9 +664,26 @@ def normalise(t):
                 if head:
                     return normalise(("seq",) + tuple(head) + (new,))
                 return new
+        # a tail loop that is left only by `return X`:  loop {.. return X ..}  ==  loop {.. break ..}; X
+        if items and _is(items[-1], "loop") and len(items[-1]) == 2:
+            rets = [x for x in _subterms(items[-1]) if _is(x, "return")]
+            brks = [x for x in _subterms(items[-1]) if _is(x, "break")]
+            if rets and not brks and all(r == rets[0] for r in rets) and rets[0][1] != ("Err",) and not any(_is(x, "loop") or _is(x, "for") for x in _subterms(items[-1][1])):
+                def rb(x):
+                    if isinstance(x, tuple):
+                        if x == rets[0]:
+                            return ("break",)
+                        return tuple(rb(y) for y in x)
+                    return x
+                items = items[:-1] + [rb(items[-1]), rets[0][1]]
+                return normalise(("seq",) + tuple(items))
         if len(items) == 1:
             return items[0]
         return ("seq",) + tuple(items)
+    if h == "if" and len(t) == 4 and t[3] == ("lit", "false", "bool"):
+        return normalise(("op", "and", "bool", t[1], t[2]))        # if a {b} else {false}  ==  a && b
+    if h == "if" and len(t) == 4 and t[2] == ("lit", "true", "bool"):
+        return normalise(("op", "or", "bool", t[1], t[3]))         # if a {true} else {b}  ==  a || b
     if h == "if":
         t = _flip_not(t)
     if h == "set" and len(t) == 3 and isinstance(t[1], tuple) and t[1][0] in ("var", "field"):
